@@ -44,6 +44,7 @@ _counter = [0]
 RUN_SH = "sleep $3\necho $1\nexit $2\n"
 K_RACE = "C52.parallel.crash_or_hang"
 K_SHALL = "C52.command.shall_fail_exit0_success"
+K_STATUS = "C52.parallel.command_status_race"
 
 
 # ------------------------------------------------------------------ tree
@@ -130,14 +131,21 @@ def proc_snapshot(pid):
                 s = h.read()
             if s[s.rindex(")") + 2:].split()[0] not in ("S", "I"):
                 sleeping = False
-        children = False
+        children = False  # a live (non zombie) child: an unreaped zombie is what a deadlocked SIGCHLD handler leaves
         for t in os.listdir("/proc/%d/task" % pid):
             try:
                 with open("/proc/%d/task/%s/children" % (pid, t)) as h:
-                    if h.read().strip():
-                        children = True
+                    kids = h.read().split()
             except OSError:
-                pass
+                kids = []
+            for k in kids:
+                try:
+                    with open("/proc/%s/stat" % k) as h:
+                        ks = h.read()
+                    if ks[ks.rindex(")") + 2:].split()[0] != "Z":
+                        children = True
+                except (OSError, ValueError):
+                    pass
         return ticks, sleeping, children
     except (OSError, ValueError, IndexError):
         return None
@@ -359,6 +367,8 @@ def check_case(case):
     classes = set()
     for r in runs:
         for _ in range(repeat):
+            if problems and (repeat > 1 or any(p[0] not in KNOWN for p in problems)):
+                break  # already decided
             res = None
             for attempt in range(3):
                 res = one_run(files, r)
@@ -372,6 +382,17 @@ def check_case(case):
             if res["status"] != "exit":
                 continue
             completed += 1
+            vkeys = ("C52.verdict.step", "C52.verdict.file", "C52.exit_status")
+            if any(p[0] in vkeys for p in res["problems"]):
+                # deterministic or schedule dependent?  the same invocation is tried again (twice at most)
+                for _again in range(2):
+                    res2 = one_run(files, r)
+                    if res2["status"] == "exit" and not any(p[0] in vkeys for p in res2["problems"]):
+                        res["problems"] = [((K_STATUS, "not reproduced when the same invocation is repeated: " + p[1])
+                                            if p[0] in vkeys else p) for p in res["problems"]]
+                        res["verdicts"] = res2["verdicts"]
+                        classes.add("race.status")
+                        break
             problems += res["problems"]
             rule = True if r.get("discard") is None else r["discard"]
             if res["verdicts"] is not None:
